@@ -14,7 +14,7 @@ CW == INSTANCE CleanWrite WITH Variant <- "repaired", pc <- "done", mode <- "jso
 Recs == ndJsonDeserialize(IOEnv.TRACE_FILE)
 VARIABLE i
 
-Known == {"open_ok", "open_fail", "write_ok", "write_fail", "flush_ok", "flush_fail",
+Known == {"open_ok", "open_fail", "write_ok", "write_fail", "write_short", "flush_ok", "flush_fail",
           "close_ok", "close_fail", "remove"}
 
 Apply(s, e, m) ==
@@ -22,6 +22,7 @@ Apply(s, e, m) ==
       [] e = "open_fail"  -> s
       [] e = "write_ok"   -> CW!EWriteOk(s)
       [] e = "write_fail" -> CW!EWriteFail(s)
+      [] e = "write_short" -> CW!EWriteFail(s)     \* a partial write: no exception, but the data is incomplete
       [] e = "flush_ok"   -> CW!EFlushOk(s, m)
       [] e = "flush_fail" -> CW!EFlushFail(s)
       [] e = "close_ok"   -> CW!ECloseOk(s)
